@@ -16,6 +16,7 @@ R15.2  every PipeWriter::PipeSignal enumerator is written somewhere, accepted by
        handled by a branch of handleRead.
 R15.3  (sibling agreement) ProcessExecutor::handleRead and SyncLogForwarder::reportErr forward a worker's
        finding only under hasToLog(msg).
+R15.5  sibling of R24.3: the parent / thread worker merges (add, else update) the suppression state each worker reports.
 R15.4  Executor::hasToLog lets every Severity::internal message through (see internal_passthrough).
 """
 import re
@@ -297,6 +298,12 @@ def run(ctx):
                    ('%s forwards a worker finding at line %s without hasToLog(msg): duplicates/suppressed findings are shown with this executor only'
                     % (name, r.at_node[i]['l'])), '%s:%s' % (f['file'], r.at_node[i]['l']))
     ctx.floor('R15.3 forwarding sites', n, 2)
+    from .C24 import add_or_merge
+    ctx.rule('R15.5', 'suppression state reported by several workers is merged, not first-wins')
+    for fn_ in (F.one('ProcessExecutor::handleRead'), F.one('ThreadData::check')):
+        ok, why, line = add_or_merge(F, fn_)
+        ctx.ob('R15.5', 'merge:%s' % fn_['name'], ok, ('%s merges the state of a suppression that is already known' % fn_['name']) if ok else
+               ('%s: %s - with several jobs the unmatched-suppression report depends on which worker finishes first' % (fn_['name'], why)), '%s:%s' % (fn_['file'], line or fn_['line']))
     ctx.rule('R15.4', 'internal messages (addon summaries, checker log) pass the executors\' gate unfiltered')
     internal_passthrough(ctx, 'R15.4')
 
